@@ -1,6 +1,8 @@
 from contextlib import contextmanager
 from typing import Generator, List
 
+_ERROR_PREFIX = "An error occured while rendering components "
+
 
 @contextmanager
 def component_error_message(component_path: List[str]) -> Generator[None, None, None]:
@@ -22,19 +24,22 @@ def component_error_message(component_path: List[str]) -> Generator[None, None, 
 
         # Access the exception's message, see https://stackoverflow.com/a/75549200/9788634
         if len(err.args) and err.args[0] is not None:
-            if not components:
-                orig_msg = str(err.args[0])
-            else:
-                orig_msg = str(err.args[0]).split("\n", 1)[-1]
+            orig_msg = str(err.args[0])
+            # If a nested component has already added the prefix, then the first line is that prefix and we replace it.
+            # NOTE: The original message may have multiple lines on its own, so we must not drop the first
+            #       line of a message that was not prefixed yet.
+            if getattr(err, "_components_prefixed", False) and orig_msg.startswith(_ERROR_PREFIX):
+                orig_msg = orig_msg.split("\n", 1)[-1]
         else:
             orig_msg = str(err)
 
         # Format component path as
         # "MyPage > MyComponent > MyComponent(slot:content) > Base(slot:tab)"
         comp_path = " > ".join(components)
-        prefix = f"An error occured while rendering components {comp_path}:\n"
+        prefix = f"{_ERROR_PREFIX}{comp_path}:\n"
 
         err.args = (prefix + orig_msg,)  # tuple of one
+        err._components_prefixed = True  # type: ignore[attr-defined]
 
         # `from None` should still raise the original error, but without showing this
         # line in the traceback.
